@@ -116,7 +116,11 @@ def render(net, lex, opts=None):
                       # variables in front of the Mux line are valid for every multiplexer value
                       for s in statics:
                           out.append(var_line(L, s, enum_of.get(s["name"])))
-                  out.append("Mux=%s %d,%d %s%s" % (muxer["values_names"][str(g)], sym_start(muxer), muxer["size"], val, "" if muxer["little"] else " -m"))
+                  mux_line = "Mux=%s %d,%d %s%s" % (muxer["values_names"][str(g)], sym_start(muxer), muxer["size"], val, "" if muxer["little"] else " -m")
+                  if muxer.get("group_comments", {}).get(str(g)):
+                      # a Mux= line carries a comment like a Var= line (tests/files/sym/test.sym: "Mux=LFM_Limits 0,16 3  -m<TAB>// Line Frequency Monitor limits.")
+                      mux_line += "\t// " + muxer["group_comments"][str(g)]
+                  out.append(mux_line)
                   for s in f["signals"]:
                       if s["mux"] == g:
                           out.append(var_line(L, s, enum_of.get(s["name"])))
